@@ -689,6 +689,23 @@ func ruleNoHeap(c *Ctx) []Ob {
 			}
 			// inlined callee: the verdict is reported at the call's position; attribute it to the callee
 			attributed := false
+			// columns of the analysed text can differ from the compiled file's when a renamed declaration is read under its
+			// reference name: when the exact column has no call, a line with a single module call is matched by line
+			exactCol, onLine := false, 0
+			for _, b := range st.fn.Blocks {
+				for _, ins := range b.Instrs {
+					if call, ok := ins.(*ssa.Call); ok && call.Pos().IsValid() {
+						if p := c.Fset.Position(call.Pos()); p.Line == st.l.line {
+							if p.Column == st.l.col {
+								exactCol = true
+							}
+							if f := call.Call.StaticCallee(); f != nil && c.InModule(f) {
+								onLine++
+							}
+						}
+					}
+				}
+			}
 			for _, b := range st.fn.Blocks {
 				for _, ins := range b.Instrs {
 					call, ok := ins.(*ssa.Call)
@@ -696,7 +713,7 @@ func ruleNoHeap(c *Ctx) []Ob {
 						continue
 					}
 					p := c.Fset.Position(call.Pos())
-					if p.Line != st.l.line || p.Column != st.l.col {
+					if p.Line != st.l.line || p.Column != st.l.col && (exactCol || onLine != 1) {
 						continue
 					}
 					if f := call.Call.StaticCallee(); f != nil && c.InModule(f) {
